@@ -45,7 +45,9 @@ type scenario struct {
 	Mode      string  `json:"mode"`      // gated: the harness releases attempts in Release order | auto: attempts finish by themselves
 	Release   []int   `json:"release"`   // gated: permutation of the attempts that can start
 	Placement string  `json:"placement"` // alone | retry(hedge) | timeout(hedge) | fallback(hedge) | hedge(timeout)
-	Async     bool    `json:"async"`
+	// SharedBuilder: the builder is used again (more hedges, another listener) after the policy under test was built
+	SharedBuilder bool `json:"shared_builder,omitempty"`
+	Async         bool `json:"async"`
 }
 
 type outc struct {
@@ -178,6 +180,16 @@ func run(sc scenario, propID string) (out runOut) {
 		mu.Unlock()
 	})
 	hp := b.Build()
+	if sc.SharedBuilder {
+		// the builder goes on to build another policy with more hedges and its own listener: the one under test keeps the
+		// configuration it was built with
+		b.WithMaxHedges(H + 3).OnHedge(func(failsafe.ExecutionEvent[int]) {
+			mu.Lock()
+			onHedgeStats = append(onHedgeStats, "the OnHedge listener of another policy built later from the same builder was called")
+			mu.Unlock()
+		})
+		_ = b.Build()
+	}
 
 	ctx, cancel := context.WithCancel(context.Background())
 	defer cancel()
@@ -502,6 +514,7 @@ func genScenario(t *rapid.T) scenario {
 	sc.Mode = rapid.SampledFrom([]string{"gated", "gated", "auto"}).Draw(t, "mode")
 	sc.Cancel = rapid.SampledFrom([]string{"default", "result", "errors", "if"}).Draw(t, "cancel")
 	sc.Placement = rapid.SampledFrom([]string{"alone", "alone", "retry(hedge)", "timeout(hedge)", "fallback(hedge)", "hedge(timeout)"}).Draw(t, "placement")
+	sc.SharedBuilder = rapid.IntRange(0, 3).Draw(t, "sharedBuilder") == 0
 	sc.Async = rapid.Bool().Draw(t, "async")
 	for i := 0; i < sc.MaxHedges; i++ {
 		ds := []int64{0, 200, 1000, 3000, 5000}
